@@ -200,9 +200,37 @@ def shadow_cases(rng, n):
             yield [rows, cols, [], ags, [[0, p]], meta]
 
 
+def long_ray_cases(rng, n):
+    """Range 15 and more: a blocker at offset (8,5) / (8,6) (and the seven images) and a target whose
+    centre lies EXACTLY on the shadow's edge ((15,11) / (15,13)): visible by the rule, hidden as soon
+    as the ray is evaluated slope-first in binary64; a second target well inside the shadow."""
+    for _ in range(n):
+        br, bc, tr, tc = rng.choice([(8, 5, 15, 11), (8, 6, 15, 13)])
+        sr, sc = rng.choice([1, -1]), rng.choice([1, -1])
+        swap = rng.random() < 0.5
+        size = 16 + rng.randint(0, 2)
+        o = (0 if sr > 0 else size - 1, 0 if sc > 0 else size - 1)
+
+        def at(dr, dc):
+            if swap:
+                dr, dc = dc, dr
+            return (o[0] + sr * dr, o[1] + sc * dc)
+        ags = [wagent(1, o, HD, rng.choice([None, 3])), wagent(2, at(br, bc), HD, None, 1),
+               wagent(3, at(tr, tc), HD, None, 0)]
+        if rng.random() < 0.6:
+            ags.append(wagent(3, at(br + 2, bc + 1), HD, None, 0))      # inside the shadow
+        kind = rng.choice([0, 1])
+        mapping = [[1, [3]], [2, []], [3, []]]
+        params = [[-1, HD // 2, HD, 2]] + [[1, HD, HD, 1] for _ in ags[1:]]
+        meta = [kind, mapping, 0, params, rng.getrandbits(30)]
+        act = 2 if kind == 0 else [[3, 2]]
+        yield [size, size, [], ags, [[0, act]], meta]
+
+
 def gen(tier, rng):
     quick = tier != "thorough"
     yield from shadow_cases(rng, 200 if quick else 4000)
+    yield from long_ray_cases(rng, 24 if quick else 400)
     n_layouts = 260 if quick else 6000
     cap = 40 if quick else 600
     for _ in range(n_layouts):
